@@ -3,7 +3,7 @@
 `cal_hook(cal)` returns a telstate_hook for fixtures.v4.build_v4.  `cal` is a JSON-able dict:
   antlist, pol_ordering, center_freq, bandwidth, n_chans,
   products: {'G': [(dump, array (pol, ant) or (chan, pol, ant)) ...], 'B': [...(chan, pol, ant)], 'K': [...(pol, ant)]}
-  arrays are nested lists of [re, im] pairs or None (NaN); K arrays hold plain floats / None.
+  arrays are nested lists of [re, im] pairs, None (NaN) or 'inf' (inf + 0j); K arrays hold plain floats / None / 'inf'.
   parts (optional): {'B': n}  -> "split cal": the stream gets the attribute product_B_parts = n and the solutions
   live in the sensors product_B0 .. product_B<n-1> (keys 'B0', 'B1', ... of `products`, each with its OWN event
   list, array (chan_of_part, pol, ant)); a part without a key has no sensor at all.
@@ -13,13 +13,22 @@ import numpy as np
 
 
 def _carr(a):
-    a = np.array([[np.nan, np.nan] if v is None else v for v in _flat(a, 2)], np.float64)
-    return (a[:, 0] + 1j * a[:, 1]).astype(np.complex64)
+    a = np.array([[np.nan, np.nan] if v is None else ([np.inf, 0.0] if v == 'inf' else v) for v in _flat(a, 2)],
+                 np.float64)
+    out = np.empty(len(a), np.complex64)
+    out.real, out.imag = a[:, 0], a[:, 1]          # (inf + 0j) must not become (inf + nan j)
+    return out
+
+
+def _is_leaf(a, leaf):
+    """None (NaN), 'inf' (an infinite solution) or a list of `leaf` numbers."""
+    return a is None or isinstance(a, str) or (
+        isinstance(a, (list, tuple)) and len(a) == leaf and not isinstance(a[0], (list, tuple, type(None), str)))
 
 
 def _flat(a, leaf):
-    """flatten nested lists down to leaves (None or list of `leaf` numbers)."""
-    if a is None or (isinstance(a, (list, tuple)) and len(a) == leaf and not isinstance(a[0], (list, tuple, type(None)))):
+    """flatten nested lists down to leaves (None, 'inf' or list of `leaf` numbers)."""
+    if _is_leaf(a, leaf):
         return [a]
     out = []
     for x in a:
@@ -28,7 +37,7 @@ def _flat(a, leaf):
 
 
 def _shape(a, leaf):
-    if a is None or (isinstance(a, (list, tuple)) and len(a) == leaf and not isinstance(a[0], (list, tuple, type(None)))):
+    if _is_leaf(a, leaf):
         return ()
     return (len(a),) + _shape(a[0], leaf)
 
@@ -41,10 +50,38 @@ def float_array(a):
     return np.array(a, np.float64) if a is not None else np.array(np.nan)
 
 
-def cal_hook(cal, sync_time=1600000000.0, first_timestamp=123.0, int_time=2.0):
+L2_IMAGE_STREAM = 'continuum_image'
+L2_TARGET = 'tgt'
+L2_STREAM = L2_IMAGE_STREAM + '_' + L2_TARGET + '_selfcal'
+
+
+def l2_hook(cal2, **kw):
+    """A self-calibration ("l2") stream: an archived stream of type sdp.continuum_image with one imaged target whose
+    <stream>_<target>_selfcal namespace holds the stream attributes and the product sensors of `cal2` (same layout as
+    `cal`).  build_v4 must be called with archived_override=[stream, 'cal', L2_IMAGE_STREAM]."""
+    inner = cal_hook(cal2, cal_stream=L2_STREAM, stream_type=None, **kw)
+
     def hook(ts, cbid, stream):
-        view = ts.view('cal')
-        view['stream_type'] = 'sdp.cal'
+        view = ts.view(L2_IMAGE_STREAM)
+        view['stream_type'] = 'sdp.continuum_image'
+        view['targets'] = {'T, radec, 0:00:00, -30:00:00': L2_TARGET}
+        inner(ts, cbid, stream)
+    return hook
+
+
+def hooks(*hs):
+    def hook(ts, cbid, stream):
+        for h in hs:
+            h(ts, cbid, stream)
+    return hook
+
+
+def cal_hook(cal, sync_time=1600000000.0, first_timestamp=123.0, int_time=2.0, cal_stream='cal',
+             stream_type='sdp.cal'):
+    def hook(ts, cbid, stream):
+        view = ts.view(cal_stream)
+        if stream_type is not None:
+            view['stream_type'] = stream_type
         view['antlist'] = list(cal['antlist'])
         view['pol_ordering'] = list(cal['pol_ordering'])
         view['center_freq'] = float(cal['center_freq'])
@@ -52,12 +89,13 @@ def cal_hook(cal, sync_time=1600000000.0, first_timestamp=123.0, int_time=2.0):
         view['n_chans'] = int(cal['n_chans'])
         for ptype, n_parts in cal.get('parts', {}).items():
             view['product_%s_parts' % ptype] = int(n_parts)
-        cb = ts.view(ts.join(cbid, 'cal'))
+        cb = ts.view(ts.join(cbid, cal_stream))
         t0 = sync_time + first_timestamp
         for ptype, events in cal['products'].items():
             for dump, arr in events:
                 if ptype[0] == 'K':
-                    value = np.array([[np.nan if v is None else v for v in row] for row in arr], np.float64)
+                    value = np.array([[np.nan if v is None else (np.inf if v == 'inf' else v) for v in row]
+                                      for row in arr], np.float64)
                 else:
                     value = complex_array(arr)
                 # the middle of dump `dump` (dump -1: well before the data)
